@@ -78,6 +78,9 @@ def rule_wctx(prog, em):
         if not hs:
             problems.append('the write is not preceded by the handler call')
         vo = single_origin(trace_operand(b, w.args[2], through_calls=set())) if len(w.args) > 2 else None
+        if vo is not None and vo.kind == 'agg' and vo.data[2].get('adt') == 'context::ContextValue' and vo.data[2].get('variant') == 'Variable' and not vo.proj:
+            # written directly into the map: unwrap ContextValue::Variable(value)
+            vo = single_origin(trace_operand(b, vo.data[2]['ops'][0], through_calls=set()))
         if not (vo is not None and vo.kind == 'callres' and any(vo.data.bb == h.bb for h in hs) and vo.proj == (('dc', 'Ok'), ('f', 0))):
             problems.append('the value written is not the ?-unwrapped result of the handler call (%r)' % vo)
         # handler operands are the two evaluated operands, in order
@@ -145,7 +148,7 @@ def rule_ctx_store(prog, em):
     absent name and the stored value for a variable; references pass the node's own name"""
     obs = []
     cw = em.ctx_writers()
-    for bid in sorted(em._cw_direct):
+    for bid in sorted(em._cw_direct & cw):
         b = prog.by_id[bid]
         ins = [c for c in b.live_calls if (c.callee or '').endswith('::insert') and 'context::ContextValue' in ' '.join(c.term['arg_tys'])]
         key = 'CTXSTORE|%s' % b.name
